@@ -119,16 +119,21 @@ async fn answers<const N: usize>(s: &Storage<ArrayKey<N>>, seed: u64, n_keys: u6
 }
 
 async fn gen<const N: usize>(root: &Path, bloom: u8, n_blobs: usize, seed: u64) {
-    let name = format!("k{}-b{}-n{}", N, bloom, n_blobs);
+    gen_sized::<N>(root, bloom, n_blobs, seed, 14, 10, 14, "").await
+}
+
+/// `big` directories: hundreds of keys and 600..1200 records per blob, so that the index files have many leaves
+/// and an inner level (the small ones fit into a single leaf)
+async fn gen_sized<const N: usize>(root: &Path, bloom: u8, n_blobs: usize, seed: u64, n_keys: u64, per_min: u64, per_span: u64, suffix: &str) {
+    let name = format!("k{}-b{}-n{}{}", N, bloom, n_blobs, suffix);
     let dir: PathBuf = root.join(&name);
     let _ = std::fs::remove_dir_all(&dir);
     let mut s: Storage<ArrayKey<N>> = builder(&dir, bloom).build().expect("build");
     s.init().await.expect("init");
-    let n_keys = 14u64;
     let mut rs = seed;
     let mut id = 1u64;
     for b in 0..n_blobs {
-        let per = 10 + (splitmix(&mut rs) % 14);
+        let per = per_min + (splitmix(&mut rs) % per_span);
         for _ in 0..per {
             let r = splitmix(&mut rs);
             let k = r % n_keys;
@@ -177,6 +182,13 @@ async fn gen<const N: usize>(root: &Path, bloom: u8, n_blobs: usize, seed: u64) 
 async fn main() {
     let root = PathBuf::from(std::env::args().nth(1).expect("usage: corpus_gen <out dir>"));
     std::fs::create_dir_all(&root).unwrap();
+    // multi-leaf / two-level index files
+    gen_sized::<8>(&root, 1, 3, 0xB16_0008, 400, 600, 600, "-big").await;
+    gen_sized::<32>(&root, 2, 2, 0xB16_0032, 300, 600, 400, "-big").await;
+    gen_sized::<4>(&root, 0, 2, 0xB16_0004, 500, 700, 300, "-big").await;
+    if std::env::var("CORPUS_ONLY_BIG").is_ok() {
+        return;
+    }
     let mut seed = 0xC17u64;
     for bloom in 0..3u8 {
         for n_blobs in 1..=4usize {
